@@ -438,6 +438,52 @@ func c20(ctx *Ctx) (*Outcome, error) {
 	sigs := map[string]bool{}
 	var samples []any
 	runs, builds, okCases, skipped := 0, 0, 0, 0
+	// two-step use: a referenced schema is generated on its own (package + output), and the referring schema later with
+	// a package mapping only ("the other package exists already"): the referring file must name the same types as
+	// when both are generated in one run
+	for v := 0; v < ctx.N(6, 12); v++ {
+		other := `{"$id":"https://example.com/two/other","type":"object","properties":{"order":{"$ref":"#/$defs/Order"}},"$defs":{` +
+			`"Order":{"type":"object","properties":{"item":{"type":"object","properties":{"productId":{"type":"string"}},"required":["productId"]},"state":{"type":"string","enum":["new","done"]}}},` +
+			`"OrderItem":{"type":"object","properties":{"sku":{"type":"string"},"qty":{"type":"integer"}},"required":["sku"]},` +
+			`"order_state":{"type":"integer","minimum":1},"OrderState":{"type":"boolean"}}}`
+		refs := [][]string{{"OrderItem"}, {"OrderItem", "Order"}, {"Order", "OrderItem"}, {"OrderState", "order_state"}, {"order_state", "OrderItem", "OrderState"}, {"Order"}}[v%6]
+		props := ""
+		for k, r := range refs {
+			if k > 0 {
+				props += ","
+			}
+			props += fmt.Sprintf(`"p%d":{"$ref":"other.json#/$defs/%s"}`, k, r)
+		}
+		mainS := `{"$id":"https://example.com/two/main","type":"object","properties":{` + props + `}}`
+		files := append(c20ModFiles(ctx.Env), batch.File{Path: "schemas/other.json", Data: []byte(other)}, batch.File{Path: "schemas/main.json", Data: []byte(mainS)})
+		common := []string{"-p", c20Mod + "/defpkg", "-o", "defpkg/default.go", "--schema-package", "https://example.com/two/other=" + c20Mod + "/other", "--schema-package", "https://example.com/two/main=" + c20Mod + "/mainpkg", "--schema-output", "https://example.com/two/main=mainpkg/main.go"}
+		if v >= 6 {
+			common = append(common, "--extra-imports")
+		}
+		joint := cli.Run(ctx.Env, &cli.Inv{Files: files, Args: append(append([]string{}, common...), "--schema-output", "https://example.com/two/other=other/other.go", "schemas/main.json")})
+		twostep := cli.Run(ctx.Env, &cli.Inv{Files: files, Args: append(append([]string{}, common...), "schemas/main.json")})
+		alone := cli.Run(ctx.Env, &cli.Inv{Files: files, Args: append(append([]string{}, common...), "--schema-output", "https://example.com/two/other=other/other.go", "schemas/other.json")})
+		runs += 3
+		sigs[fmt.Sprintf("two-step refs=%v", refs)] = true
+		problem := ""
+		switch {
+		case joint.Proc.Exit != 0 || twostep.Proc.Exit != 0 || alone.Proc.Exit != 0:
+			problem = fmt.Sprintf("two-step layout refused: joint=%d (%s) twostep=%d (%s) alone=%d", joint.Proc.Exit, joint.Failed(), twostep.Proc.Exit, twostep.Failed(), alone.Proc.Exit)
+		case !bytes.Equal(joint.Outputs()["mainpkg/main.go"], twostep.Outputs()["mainpkg/main.go"]):
+			problem = "the referring file names other types when the referenced schema is mapped to a package without an output file: " + declDiff(joint.Outputs()["mainpkg/main.go"], twostep.Outputs()["mainpkg/main.go"])
+		case !bytes.Equal(joint.Outputs()["other/other.go"], alone.Outputs()["other/other.go"]):
+			problem = "the referenced package differs between 'generated on its own' and 'generated through the reference': " + declDiff(joint.Outputs()["other/other.go"], alone.Outputs()["other/other.go"])
+		}
+		if problem != "" && len(viols) < 10 {
+			rp := filepath.Join(evid.ReplayDir(), fmt.Sprintf("C20-twostep-%d", v))
+			_ = os.RemoveAll(rp)
+			_ = osexec("cp", "-r", twostep.Dir, rp)
+			viols = append(viols, Viol{Replay: rp, Summary: trunc(problem, 700) + fmt.Sprintf("\n refs=%v", refs)})
+		}
+		joint.Cleanup()
+		twostep.Cleanup()
+		alone.Cleanup()
+	}
 	skipReasons := map[string]int{}
 	vseen := map[string]bool{}
 	knownHits := map[string]int{}
@@ -491,7 +537,7 @@ func c20(ctx *Ctx) (*Outcome, error) {
 	if len(samples) == 0 {
 		o.Coverage["samples"] = []any{"none"}
 	}
-	o.Assumptions = []string{"unrelated/original schemas use disjoint type names (DESIGN §3.11: same-package name collisions necessarily produce order-dependent suffixes)", "a schema mapped with --schema-package is always given a --schema-output too (package without output means 'do not emit' by design of the tool)"}
+	o.Assumptions = []string{"unrelated/original schemas use disjoint type names (DESIGN §3.11: same-package name collisions necessarily produce order-dependent suffixes)", "in the random layouts a schema mapped with --schema-package is always given a --schema-output too (package without output means 'do not emit' by design of the tool); the two-step stratum covers the package-only mapping of a referenced schema"}
 	for s := range knownHits {
 		if e, ok := ctx.Known.Get(s); ok {
 			o.KnownLines = append(o.KnownLines, fmt.Sprintf("sig=%s %s", e.Sig, e.Text))
